@@ -49,6 +49,10 @@ Pool == { R("min", NV(N0)), R("min", NV(N7)), R("max", NV(N10)), R("max", NV(N0)
           R("type", IdV("any")), R("type", IdV("enum")), R("type", IdV("mixed")), R("type", TRef("@T")), R("foo", BV(TRUE)),
           \* a quoted name is the name as written: blanks inside the quotes make it another, unknown name
           R("min ", NV(N0)),
+          \* the rules of a rule set have to apply to the kind the set describes (its type, else the node's kind); equal bounds with an exclusive flag
+          R("or", [t |-> "list", items |-> <<[t |-> "set", rules |-> <<R("type", IdV("string")), R("minItems", NV(N1))>>], IdV("integer"), IdV("float"), IdV("boolean"), IdV("null")>>]),
+          R("or", [t |-> "list", items |-> <<[t |-> "set", rules |-> <<R("minLength", NV(N1))>>], IdV("integer"), IdV("float"), IdV("boolean"), IdV("null")>>]),
+          R("or", [t |-> "list", items |-> <<[t |-> "set", rules |-> <<R("type", IdV("integer")), R("min", NV(N7)), R("max", NV(N7)), R("exclusiveMinimum", BV(TRUE))>>], IdV("string"), IdV("float"), IdV("boolean"), IdV("null")>>]),
           R("or", [t |-> "list", items |-> <<[t |-> "set", rules |-> <<R("type", IdV("string")), R(" minLength", NV(N1))>>], IdV("integer"), IdV("float"), IdV("boolean"), IdV("null")>>]) }
 SmallPool == { R("min", NV(N0)), R("max", NV(N10)), R("max", NV(N0)), R("exclusiveMinimum", BV(TRUE)), R("exclusiveMaximum", BV(FALSE)), R("precision", NV(N2)),
                R("minLength", NV(N1)), R("maxLength", NV(N10)), R("regex", RegexA), R("minItems", NV(N1)), R("maxItems", NV(N5)),
